@@ -351,6 +351,9 @@ def run(plan, ch, want_log=False):
     results = collections.Counter()
     done = []
     leaked_read_keys, leaked_write_keys = set(), set()
+    purged_in_plan = {op[1] for l in plan["ops"] for op in l if op[0] == "purge"}
+    never_purged = set(plan["keys"]) - purged_in_plan
+    closed_ok = set()
 
     def srv():
         server.entrypoint(PORT, cap, None, "s")
@@ -401,6 +404,7 @@ def run(plan, ch, want_log=False):
                 try:
                     buf.close()
                     results["written"] += 1
+                    closed_ok.add(key)
                 except ValueError:
                     results["writer_close_err"] += 1     # e.g. the key was purged meanwhile
             elif kind in ("read", "read_leak"):
@@ -408,6 +412,10 @@ def run(plan, ch, want_log=False):
                 buf, err = api_call(client.get, key, timeout_sec=2.0)
                 if buf is None:
                     results["get_" + type(err).__name__] += 1
+                    if isinstance(err, ValueError) and not isinstance(err, TimeoutError) and key in never_purged and key in closed_ok \
+                            and not plan.get("faults") and key not in leaked_write_keys:
+                        # written, closed, never purged, no fault injected: the store has no reason to refuse it
+                        mon.v("C09", "get_failed_for_live_dataset", (key, str(err)[:100]))
                     continue
                 got = bytes(buf.view())
                 if not incarnations[key]:
@@ -447,6 +455,22 @@ def run(plan, ch, want_log=False):
         K.cfg.pop("shm_enomem", None)
         K.sleep(int(16 * 60 * 1e9))
         api_call(client.get_free_space)
+        # every dataset that was completely written and never purged is still reachable, however often it was paged out
+        # (fault-free plans only; a key with a dead writer or a leaked reader is excluded)
+        if not plan.get("faults"):
+            for key in sorted(never_purged & closed_ok - leaked_write_keys - leaked_read_keys):
+                buf, err = api_call(client.get, key, timeout_sec=60.0)
+                if buf is None:
+                    mon.v("C09", "dataset_unreachable", (key, repr(err)[:80]))
+                else:
+                    got = bytes(buf.view())
+                    if got not in incarnations[key]:
+                        mon.v("C09", "bytes_differ", (key, len(got), got[:12], [(len(b), b[:12]) for b in incarnations[key]][-2:]), final_audit=True)
+                    try:
+                        buf.close()
+                    except ValueError:
+                        pass
+                    K.probe("final_audit_read")
         mgr = mon.manager
         stuck = 0
         if mgr is not None:
